@@ -32,7 +32,7 @@ theorem modGt_eq_generated (a b : BitVec 32) : modGt a b = Elvis.Gen.ModCmp.mod_
 
 theorem modGeq_eq_generated (a b : BitVec 32) : modGeq a b = Elvis.Gen.ModCmp.mod_geq a b := by
   unfold modGeq Elvis.Gen.ModCmp.mod_geq
-  rw [modLt_eq_generated]
+  rw [modGt_eq_generated]
 
 theorem modBounded_eq_generated (a : BitVec 32) (ab : Cmp) (b : BitVec 32) (bc : Cmp) (c : BitVec 32) :
     modBounded a ab b bc c = Elvis.Gen.ModCmp.mod_bounded a ab.toGen b bc.toGen c := by
